@@ -4,7 +4,7 @@
    that represents a value the complete side always returns (C16), so a successful export of the partial tree is
    the export of the value. *)
 Require Import RM.Base RM.Gindex RM.Tree RM.TreeProofs RM.Types RM.Spec RM.ModelViews RM.ModelCodec RM.ModelMut RM.ModelIters RM.ModelObj
-               RM.PartialProofs RM.PartialViews RM.PartialStore RM.ReprProofs RM.ObjProofs.
+               RM.PartialProofs RM.PartialViews RM.PartialStore RM.ReprProofs RM.ObjProofs RM.PartialErrors.
 From Coq Require Import ZifyBool ZifyNat ZifyN.
 Local Open Scope N_scope.
 Section WithHash.
@@ -150,5 +150,142 @@ Theorem partial_export_is_value t v n m n0 o : wf_ty t = true -> fields_ok t = t
 Proof.
   intros Hty Hf Hwf Hr Hmk Hs Ho. destruct (obj_roundtrip H src t Hty Hf v m n0 Hwf Hr Hmk) as (o' & Ho' & Hfo).
   rewrite (ag_to_obj t n m Hs o o' Ho Ho'). split; assumption.
+Qed.
+(* ---- the other direction for the iterators and the export: where the complete tree answers, the partial tree gives
+        the same answer or fails with a navigation / index error ---- *)
+Notation sn := (sn H).
+Definition csim {A} (R : A -> A -> Prop) (rp rc : result A) : Prop :=
+  forall y, rc = Ok y -> (exists x, rp = Ok x /\ R x y) \/ (exists e, rp = Err e /\ naverr e).
+Lemma csim_of_nsim {A} (R : A -> A -> Prop) rp rc : nsim R rp rc -> csim R rp rc.
+Proof. intros Hn y Hy. destruct (nsim_complete R rp rc y Hn Hy) as [Hx|[E|E]]; [left; exact Hx|right; exists ENav; split; [exact E|left; reflexivity]|right; exists EIndex; split; [exact E|right; reflexivity]]. Qed.
+Lemma csim_bind {A B} (R : A -> A -> Prop) (S : B -> B -> Prop) a b (f g : A -> result B) :
+  csim R a b -> (forall x y, R x y -> csim S (f x) (g y)) -> csim S (bind a f) (bind b g).
+Proof.
+  intros Hab Hfg v Hv. destruct b as [y|eb]; [|discriminate]. cbn [bind] in Hv.
+  destruct (Hab y eq_refl) as [(x & -> & Hr)|(e & -> & He)]; cbn [bind]; [exact (Hfg x y Hr v Hv)|right; eauto].
+Qed.
+Lemma csim_ret {A} (R : A -> A -> Prop) x y : R x y -> csim R (Ok x) (Ok y).
+Proof. intros Hr v Hv. inversion Hv; subst. left; eauto. Qed.
+Lemma csim_refl {A} (r : result A) : csim eq r r.
+Proof. intros v Hv. left; eauto. Qed.
+Lemma csim_err {A} (R : A -> A -> Prop) rp e : csim R rp (Err e).
+Proof. intros v Hv. discriminate. Qed.
+
+Definition sns (a b : list node) : Prop := Forall2 sn a b.
+Definition snp (a b : node * list node) : Prop := sn (fst a) (fst b) /\ sns (snd a) (snd b).
+Lemma snd0 : sn dummy dummy.
+Proof. now apply sn_refl. Qed.
+Lemma sns_set_nth : forall k x y a b, sn x y -> sns a b -> sns (set_nth k x a) (set_nth k y b).
+Proof.
+  intros k x y a b Hxy Hab. revert k. induction Hab as [|u w a b Huw Hab IH]; intros k; [destruct k; constructor|].
+  destruct k; cbn [set_nth]; constructor; auto. apply IH.
+Qed.
+Lemma sns_nth : forall a b k, sns a b -> sn (nth k a dummy) (nth k b dummy).
+Proof. intros a b k Hab. revert k. induction Hab; intros [|k]; cbn; auto; apply snd0. Qed.
+Lemma sns_repeat k : sns (repeat dummy k) (repeat dummy k).
+Proof. induction k; cbn; constructor; auto. apply snd0. Qed.
+
+Lemma c_descend : forall steps x nv nm sv sm, sn nv nm -> sns sv sm -> csim snp (descend src steps x nv sv) (descend src steps x nm sm).
+Proof.
+  induction steps as [|k IH]; intros x nv nm sv sm Hn Hs; cbn [descend]; [apply csim_ret; split; assumption|].
+  apply (csim_bind sn snp _ _ _ _ (csim_of_nsim _ _ _ (n_get_left H src nv nm Hn))). intros l l' Hl. apply IH; [exact Hl|now apply sns_set_nth].
+Qed.
+Lemma c_advance av am depth idx sv sm : sn av am -> sns sv sm -> csim snp (advance src av depth idx sv) (advance src am depth idx sm).
+Proof.
+  intros Ha Hs. unfold advance. destruct (idx =? 0); [now apply c_descend|]. cbv zeta.
+  apply (csim_bind sn snp _ _ _ _ (csim_of_nsim _ _ _ (n_get_right H src _ _ (sns_nth sv sm _ Hs)))). intros r r' Hr. now apply c_descend.
+Qed.
+Lemma c_node_iter_loop : forall fuel av am depth i sv sm, sn av am -> sns sv sm ->
+  csim sns (node_iter_loop src fuel av depth i sv) (node_iter_loop src fuel am depth i sm).
+Proof.
+  induction fuel as [|f IH]; intros av am depth i sv sm Ha Hs; cbn [node_iter_loop]; [apply csim_ret; constructor|].
+  apply (csim_bind snp sns _ _ _ _ (c_advance av am depth i sv sm Ha Hs)). intros r r' [Hr1 Hr2].
+  apply (csim_bind sns sns _ _ _ _ (IH av am depth (i + 1) _ _ Ha Hr2)). intros rest rest' Hrest. apply csim_ret. constructor; assumption.
+Qed.
+Theorem c_node_iter av am depth len : sn av am -> csim sns (node_iter src av depth len) (node_iter src am depth len).
+Proof. intros Ha. unfold node_iter. destruct (_ <? len); [apply csim_err|]. apply c_node_iter_loop; [exact Ha|apply sns_repeat]. Qed.
+
+Lemma sn_leaf n m : sn n m -> is_leaf src m = true -> is_leaf src n = true.
+Proof.
+  intros [Hs _]. unfold is_leaf. destruct (children src n) as [[l r]|] eqn:Hc; [|reflexivity].
+  destruct (summ_children H src n m l r Hs Hc) as (l' & r' & -> & _). discriminate.
+Qed.
+
+Lemma c_packed_iter_loop : forall fuel av am depth e per j ri cv cm sv sm, sn av am -> root cv = root cm -> sns sv sm ->
+  csim eq (packed_iter_loop H src fuel av depth e per j ri cv sv) (packed_iter_loop H src fuel am depth e per j ri cm sm).
+Proof.
+  induction fuel as [|f IH]; intros av am depth e per j ri cv cm sv sm Ha Hc Hs; cbn [packed_iter_loop]; [apply csim_refl|].
+  destruct (j <? per).
+  - unfold packed_elem_bytes. rewrite Hc. fold (packed_elem_bytes H e cm j).
+    destruct (packed_elem_bytes H e cm j) as [b|er]; [|apply csim_err]. cbn [bind].
+    apply (csim_bind eq eq _ _ _ _ (IH av am depth e per (j + 1) ri cv cm sv sm Ha Hc Hs)). intros x y ->. apply csim_refl.
+  - apply (csim_bind snp eq _ _ _ _ (c_advance av am depth ri sv sm Ha Hs)). intros [nv sv'] [nm sm'] [Hn Hs']. cbn [fst snd] in *.
+    destruct (is_leaf src nm) eqn:Hl; [|apply csim_err]. rewrite (sn_leaf nv nm Hn Hl). cbn [negb].
+    unfold packed_elem_bytes. rewrite (sn_root H nv nm Hn). fold (packed_elem_bytes H e nm 0).
+    destruct (packed_elem_bytes H e nm 0) as [b|er]; [|apply csim_err]. cbn [bind].
+    apply (csim_bind eq eq _ _ _ _ (IH av am depth e per 1 (ri + 1) nv nm sv' sm' Ha (sn_root H nv nm Hn) Hs')). intros x y ->. apply csim_refl.
+Qed.
+Theorem c_packed_iter av am depth len e size : sn av am -> csim eq (packed_iter H src av depth len e size) (packed_iter H src am depth len e size).
+Proof. intros Ha. unfold packed_iter. cbv zeta. destruct (_ <? len); [apply csim_err|]. apply c_packed_iter_loop; [exact Ha|reflexivity|apply sns_repeat]. Qed.
+
+Lemma c_bit_iter_loop : forall fuel av am depth j ri cur sv sm, sn av am -> sns sv sm ->
+  csim eq (bit_iter_loop H src fuel av depth j ri cur sv) (bit_iter_loop H src fuel am depth j ri cur sm).
+Proof.
+  induction fuel as [|f IH]; intros av am depth j ri cur sv sm Ha Hs; cbn [bit_iter_loop]; [apply csim_refl|].
+  destruct (0 <? j).
+  - cbv zeta. apply (csim_bind eq eq _ _ _ _ (IH av am depth _ ri cur sv sm Ha Hs)). intros x y ->. apply csim_refl.
+  - apply (csim_bind snp eq _ _ _ _ (c_advance av am depth ri sv sm Ha Hs)). intros [nv sv'] [nm sm'] [Hn Hs']. cbn [fst snd] in *.
+    destruct (is_leaf src nm) eqn:Hl; [|apply csim_err]. rewrite (sn_leaf nv nm Hn Hl). cbn [negb]. cbv zeta. rewrite (sn_root H nv nm Hn).
+    apply (csim_bind eq eq _ _ _ _ (IH av am depth 1 (ri + 1) (root nm) sv' sm' Ha Hs')). intros x y ->. apply csim_refl.
+Qed.
+Theorem c_bit_iter av am depth len : sn av am -> csim eq (bit_iter H src av depth len) (bit_iter H src am depth len).
+Proof. intros Ha. unfold bit_iter. destruct (_ <? len); [apply csim_err|]. apply c_bit_iter_loop; [exact Ha|apply sns_repeat]. Qed.
+
+Lemma c_seq {B} (f : node -> result B) : forall a b, sns a b -> (forall x y, sn x y -> csim eq (f x) (f y)) ->
+  csim eq (seq_res (map f a)) (seq_res (map f b)).
+Proof.
+  intros a b Hab Hf. induction Hab as [|x y a b Hxy Hab IH]; [apply csim_refl|]. cbn [map seq_res].
+  apply (csim_bind eq eq _ _ _ _ (Hf x y Hxy)). intros o o' ->. apply (csim_bind eq eq _ _ _ _ IH). intros r r' ->. apply csim_refl.
+Qed.
+
+Theorem c_to_obj : forall t n m, sn n m -> csim eq (to_obj H src t n) (to_obj H src t m).
+Proof.
+  induction t as [k| |bn|bl|yn|yl|e nn IHe|e l IHe|fs Hfs|b os Hos] using ty_ind'; intros n m Hs; cbn [ModelObj.to_obj];
+    try (apply (csim_bind eq eq _ _ _ _ (csim_of_nsim _ _ _ (n_ser H src _ n m Hs))); intros x y ->; apply csim_refl).
+  - rewrite (sn_root H n m Hs). apply csim_refl.
+  - rewrite (sn_root H n m Hs). apply csim_refl.
+  - (* vector *) apply (csim_bind eq eq _ _ _ _ (csim_of_nsim _ _ _ (n_view_len H src _ n m Hs))). intros ll ll' ->.
+    apply (csim_bind eq eq); [|intros x y ->; apply csim_refl].
+    destruct (basic_size e) as [s|].
+    + apply (csim_bind eq eq _ _ _ _ (c_packed_iter n m _ _ e s Hs)). intros x y ->. apply csim_refl.
+    + apply (csim_bind sns eq _ _ _ _ (c_node_iter n m _ _ Hs)). intros ns ns' Hns. now apply c_seq.
+  - (* list *) apply (csim_bind eq eq _ _ _ _ (csim_of_nsim _ _ _ (n_view_len H src _ n m Hs))). intros ll ll' ->.
+    apply (csim_bind eq eq); [|intros x y ->; apply csim_refl].
+    destruct (basic_size e) as [s|].
+    + apply (csim_bind eq eq _ _ _ _ (c_packed_iter n m _ _ e s Hs)). intros x y ->. apply csim_refl.
+    + apply (csim_bind sns eq _ _ _ _ (c_node_iter n m _ _ Hs)). intros ns ns' Hns. now apply c_seq.
+  - (* container *)
+    apply (csim_bind sns eq _ _ _ _ (c_node_iter n m _ _ Hs)). intros ns ns' Hns.
+    apply (csim_bind eq eq); [|intros x y ->; apply csim_refl].
+    generalize 0%nat as i0. revert ns ns' Hns. induction Hfs as [|f fs' Hf Hfs' IH]; intros ns ns' Hns i0; [apply csim_refl|].
+    destruct Hns as [|x y ns1 ns1' Hxy Hns']; [apply csim_refl|].
+    apply (csim_bind eq eq _ _ _ _ (Hf x y Hxy)). intros o o' ->.
+    apply (csim_bind eq eq _ _ _ _ (IH ns1 ns1' Hns' (S i0))). intros r r' ->. apply csim_refl.
+  - (* union *)
+    apply (csim_bind eq eq _ _ _ _ (csim_of_nsim _ _ _ (n_union_selector H src _ n m Hs))). intros sel sel' ->.
+    apply (csim_bind sn eq _ _ _ _ (csim_of_nsim _ _ _ (n_get_left H src n m Hs))). intros c c' Hc. rewrite (sn_root H c c' Hc).
+    destruct (b && (sel' =? 0)); [apply csim_refl|].
+    apply (csim_bind eq eq); [|intros x y ->; apply csim_refl].
+    generalize (N.to_nat (if b then sel' - 1 else sel')) as j. induction Hos as [|o os' Ho Hos' IH]; intros j; [destruct j; apply csim_refl|].
+    destruct j as [|j]; [now apply Ho|apply IH].
+Qed.
+(* on a tree that represents a value: the export of a partial version is the value's export, or a navigation / index error *)
+Theorem partial_export_total t v n m n0 : wf_ty t = true -> fields_ok t = true -> wf t v = true ->
+  Repr H t v m -> mk H t v = Ok n0 -> sn n m ->
+  (exists o, to_obj H src t n = Ok o /\ to_obj H src t m = Ok o /\ from_obj H t o = Ok n0) \/
+  (exists e, to_obj H src t n = Err e /\ (e = ENav \/ e = EIndex)).
+Proof.
+  intros Hty Hf Hwf Hr Hmk Hs. destruct (obj_roundtrip H src t Hty Hf v m n0 Hwf Hr Hmk) as (o & Ho & Hfo).
+  destruct (c_to_obj t n m Hs o Ho) as [(o' & Ho' & ->)|(e & He & Hn)]; [left; eauto|right; eauto].
 Qed.
 End WithHash.
